@@ -7,7 +7,7 @@
 From Coq Require Import List Arith Bool ZArith QArith Qreals Reals Lra Lia Psatz Permutation.
 From Similari Require Import Base.Num Model.Kalman.
 From Similari Require Export Proofs.KalmanBase Proofs.KalmanEntries Proofs.KalmanUpdate Proofs.KalmanScalar
-     Proofs.KalmanScalarUpd Proofs.KalmanRun Proofs.KalmanDistance Proofs.KalmanVec.
+     Proofs.KalmanScalarUpd Proofs.KalmanRun Proofs.KalmanDistance Proofs.KalmanSPD Proofs.KalmanVec.
 From SimilariGen Require Import Consts.
 Import ListNotations.
 Local Open Scope R_scope.
@@ -84,6 +84,14 @@ Section Main.
     intros z ops H k Hk. cbn zeta. rewrite run_eq_scalar_lemma by assumption.
     rewrite !state_of_cov by lia. rewrite E_pp, E_vv, E_pv by assumption.
     apply (reach_spd z ops H k Hk).
+  Qed.
+
+  (* the full matrix is positive definite: x^T P x > 0 for every x that is non-zero somewhere below 2n *)
+  Theorem cov_positive_definite_lemma : forall z ops, valid_history z ops ->
+      forall x : nat -> R, (exists i, (i < N)%nat /\ x i <> 0) -> 0 < quad F (cov (reach z ops)) x.
+  Proof.
+    intros z ops H x Hx. rewrite run_eq_scalar_lemma by assumption.
+    apply quad_positive; [apply reach_spd; assumption|exact Hx].
   Qed.
 
   (* update_eq_textbook on reachable states, run_eq_textbook for whole histories *)
